@@ -75,6 +75,7 @@ GENERATORS = [
     ("gen_py", ("py/miniconf-mqtt/miniconf/async_.py", "py/miniconf-mqtt/miniconf/sync.py",
                 "py/miniconf-mqtt/miniconf/common.py"), "Py.lean"),
     ("gen_transcode", ("miniconf/src/node.rs", "miniconf/src/jsonpath.rs"), "Transcode.lean"),
+    ("gen_keys", ("miniconf/src/key.rs", "miniconf/src/iter.rs", "miniconf/src/packed.rs"), "Keys.lean"),
 ]
 
 
